@@ -72,6 +72,21 @@ CLAIMS.update({
                 technique="exhaustive enumeration of call sequences; stateless DFS over schedules with preemption bounding for the concurrent part"),
 })
 
+CLAIMS.update({
+    "C08": dict(engine=E4, ref="DESIGN.md §5 C08",
+                text="every arm of fake! found in macros.rs at check time is instantiated by one generated program (canonical well-typed use) compiled separately by rustc against the unmodified crate; every compiled arm is driven through every call script over {matching, non-matching} up to length N+2 for N in 0..2, each in its own process, and compared call by call with one reference model (when guards, rejected calls have no side effect, assign before returns, returns evaluated per call with arguments in scope, times as a budget, scope-exit verdict, abort for non-unwinding ABIs)",
+                note="one canonical instantiation per arm (two parameters, one by reference/pointer); thorough adds N=3 and scripts up to N+3",
+                technique="exhaustive enumeration of macro arms x call scripts against a reference model; rustc accept/reject observed per arm"),
+    "C09": dict(engine=E4, ref="DESIGN.md §5 C09",
+                text="all ordered pairs of a 27-type family (arity, one parameter type, return type, reference mutability, raw-pointer mutability, unsafety, ABI, nested fn pointers, case, equal-length names) through func! and closure!, all ordered pairs of 16 fake!/func!-spelling configurations, every fake! arm against a target of every function kind, all ordered pairs of 5 async output types, checked x unchecked mixes and null pointers, executed against the unmodified crate: refusal iff the types are not written identically, message class, target bytes unchanged after a refusal",
+                note="pairs differing only in lifetime spelling are executed but not judged (as the property says)",
+                technique="exhaustive enumeration of signature pairs over a structured type family, executed on the real crate"),
+    "C10": dict(engine=E1, ref="DESIGN.md §5 C10",
+                text="gate: 26 target signatures (bool-returning of several shapes; return types that merely end in `-> bool`, contain it elsewhere, or resemble bool) x both values against the unmodified crate; stub: both values x every placement of the C01 domain on the x86-64 abstract machine and by real calls, the AArch64 stub on the A64 machine, a host assembly probe with walking register patterns, and all install histories with two boolean targets alive together",
+                note="AArch32 forwards to Rust functions; its branch is judged by C16",
+                technique="exhaustive enumeration of a signature family (gate) and of placements/histories (stub) on the real code"),
+})
+
 PENDING = {
     "C01": "engine E1", "C04": "engine E2", "C05": "engine E3/E2", "C06": "engine E3/E2", "C07": "engine E3",
     "C08": "engine E4", "C09": "engine E4", "C10": "engine E4/E1", "C11": "engine E1", "C13": "engine E1",
